@@ -144,7 +144,7 @@ CLAIMS["C01"] = dict(
    text="Proof of trap-freedom of the per-line pipeline + exhaustive panic search. Lean 4 theorems (Props/C01.lean, Proofs/Safe.lean): for each of the "
         "140 functions the translator regenerates from the source (incl. reminder's vector loops and the CPR arithmetic of position.rs), Generated/TransSafe.lean states (regenerated on every run, extract/rs2safe.py) the "
         "conditions under which none of its operations panics - unsigned subtraction, overflowing + and *, over-wide shifts, indexing, expect/unwrap, "
-        "division by zero, and the safety of every call, each under its path condition (517 obligations, incl. "no bit leaves the word" for every `<<` outside the bit layer, where the shift is translated unbounded) - and they are proved bottom-up: "
+        "division by zero, and the safety of every call, each under its path condition (517 obligations, incl. no-bit-leaves-the-word for every `<<` outside the bit layer, where the shift is translated unbounded) - and they are proved bottom-up: "
         "get_message cannot trap on ANY line (no hypothesis); every field decoder, register recogniser and record builder on every accepted frame; "
         "every row update of both paths; update_aircraft, cleanup and the loop body of read_lines (no_trap_per_line) for every line, option set and "
         "table whose rows carry decoder-made altitudes (< 100000 ft, which altitude() guarantees for what it returns) and counters below 2^31-1; "
